@@ -1480,9 +1480,14 @@ func (a *align) MaskUnique(refseq string, maskreplace string) (err error) {
 //   - total: The total number of sequences taken into account at each site (not always the number
 //     of sequences in the alignment if ignoreGaps or ignoreNs)
 func (a *align) MaxCharStats(ignoreGaps, ignoreNs bool) (out []uint8, occur []int, total []int) {
-	out = make([]uint8, a.Length())
-	occur = make([]int, a.Length())
-	total = make([]int, a.Length())
+	// an alignment without sequences has length -1: it has no site
+	length := a.Length()
+	if length < 0 {
+		length = 0
+	}
+	out = make([]uint8, length)
+	occur = make([]int, length)
+	total = make([]int, length)
 
 	all := uint8(ALL_NUCLE)
 	if a.Alphabet() == AMINOACIDS {
